@@ -401,9 +401,24 @@ def gen_validate(rng):
                 text = bad + text
             else:
                 text = text + bad
+        if rng.random() < 0.08:
+            # a stream ending in an empty document
+            text += "---\n"
         name = W + "v%d.yaml" % idx
         files[name] = text
         names.append(name)
+    if rng.random() < 0.08:
+        # A file that declares YAML 1.1, then one whose validity depends on
+        # the version in force (1.1: yes/true and 0o17/15 collide as keys;
+        # 1.2: they do not): each file is judged by itself.
+        order = [("%YAML 1.1\n---\nlegacy: yes\n", "v_legacy.yaml"),
+                 (rng.choice(["yes: 1\ntrue: 2\n", "0o17: octal\n15: dec\n",
+                              "on: 1\ntrue: 2\n"]), "v_plain.yaml")]
+        if rng.random() < 0.3:
+            order.reverse()
+        for text, base in order:
+            files[W + base] = text
+            names.append(W + base)
     opts = []
     if rng.random() < 0.5:
         opts.append(rng.choice(["-v", "-q", "-d"]))
@@ -1103,6 +1118,10 @@ def gen_merge16(rng):
                     parts.append(gen_docs.to_yaml(doc, start=True))
             name = W + "mm%d.yaml" % idx
             files[name] = "".join(parts)
+            if idx == 1 and len(parts) == 2 and rng.random() < 0.25:
+                # the right-hand stream ends in an empty document (there is
+                # a left-hand document for it, so nothing is appended)
+                files[name] += "---\n"
             names.append(name)
         scn.update(files=files, names=names, multidoc=True)
     elif rng.random() < 0.15 and "-M" not in opts and not ctl_json:
